@@ -11,7 +11,7 @@ and never parses the text the implementation reads:
 * hull  lo = min(c - r), hi = max(c + r) per axis,
 * centre = (lo + hi) / 2; the fine and the coarse box, centred where the
   implementation says the centre is, contain [lo, hi]; fine <= coarse,
-* every grid count is an integer n = 32 k + 1 >= 33,
+* every grid count (whole grid and per-processor grid) is n = 32 k + 1 >= 33,
 * the report (str) succeeds and every memory figure in it equals
   200 * nx * ny * nz / 2**20 MB of the grid the same report prints, which is
   the grid held in the attributes,
@@ -34,19 +34,22 @@ RULE = (
     "geometry: every ordered atom tuple of the stated family on the lattice "
     "{-1,0,1}^3 (n=1: 27 sites; n=2: all 729 ordered pairs, quick = the 53 "
     "pairs containing the lattice origin; n=3: the 378 multisets {origin,b,c} "
-    "in 1 (quick) or 3 (thorough) cyclic file orders) x all radius tuples "
-    "from {0,1,2.5} x 6 lattice scales x 4 offset vectors x 3 layouts x a "
-    "sizing-parameter set; records: every ATOM/HETATM pattern for n<=2; "
-    "headers: every program of <=2 inserted non-atom lines (14 kinds, every "
-    "gap, both orders; END only after the last atom) on 3 base files x scale "
-    "x offset x layout, read through parse_string and parse_input; bulk: "
-    "m^3-atom cubic lattices; bundled: every PQR file shipped in "
-    "tests/data with and without its non-atom lines; dump: io.dump_apbs on "
-    "harness-written files; e2e: pdb2pqr --apbs-input on built peptides.  "
-    "distinct/non-trivial = distinct (layout, sizing parameters, grid-count "
-    "vector, per-axis fine-box-clipped flags, sequential/parallel) outcomes "
-    "of geometry cases + distinct (base, inserted kinds, gaps) header "
-    "programs + distinct bulk/bundled/dump/e2e inputs"
+    "in cyclic file orders) x every radius tuple from {0,1,2.5} x 6 lattice "
+    "scales {0.1,1,30,100,400,2000} x 4 offset vectors {0,+500,-500,"
+    "(+500,-500,0)} x 3 layouts {fixed columns, pdb2pqr --whitespace, "
+    "single-blank whitespace} x a set of (cfac, fadd, space) settings; "
+    "records: every ATOM/HETATM pattern for n<=2; headers: every program of "
+    "<=2 inserted non-atom lines (16 kinds, every gap, both orders; END only "
+    "after the last atom) on 3 base files x scale x offset x layout, read "
+    "through parse_string, parse_input and CRLF files; bulk: m^3-atom cubic "
+    "lattices; bundled: every PQR file shipped in tests/data with and "
+    "without its non-atom lines; dump: io.dump_apbs on harness-written "
+    "files; e2e: pdb2pqr --apbs-input on built peptides.  distinct/"
+    "non-trivial = distinct (layout class, sizing parameters, grid-count "
+    "vector, per-axis fine-box-clipped flags, sequential/parallel/raising "
+    "report) outcomes of geometry cases + distinct (base, placement, "
+    "inserted kinds, gaps) header programs + distinct bulk / bundled / dump / "
+    "e2e inputs"
 )
 ASSUMPTIONS = [
     "a fixed-column case is generated only if every numeric field fits its "
@@ -56,33 +59,41 @@ ASSUMPTIONS = [
     "docs/source/formats/pqr.rst",
     "box containment and centring are compared with tolerance 1e-6 A "
     "(+1e-9 relative); box lengths printed with 4 decimals in the APBS "
-    "input are compared with tolerance 1e-4 A",
+    "input are compared with tolerance 1e-4 A; memory figures printed with "
+    "3 decimals are compared with tolerance 0.00051 MB",
     "only cfac, fadd and space are varied; gmemfac, gmemceil, ofrac and "
     "redfac stay at their defaults (the property's memory figure is the "
     "200 bytes/point estimate)",
+    "the per-processor grid (nsmall) of a parallel suggestion counts as a "
+    "grid dimension (APBS puts it into dime for mg-para): it must be "
+    "numerically 32k+1 >= 33; integer-ness of the Python type is not "
+    "demanded anywhere",
     "an END record is only inserted after the last atom (atoms after END "
     "are not claimed to belong to the structure); all other non-atom lines "
     "are inserted at every gap",
     "a structure without ATOM records (HETATM only) gets no memory estimate "
     "from the report; that is counted, not flagged",
     "total charge and atom counts are part of 'the result' only for the "
-    "header-line clause (every attribute must be unchanged); doubled "
-    "counts inside dump_apbs are counted as an event because no checked "
-    "quantity depends on them",
+    "header-line clause (every attribute and the report must be "
+    "unchanged); doubled counts inside dump_apbs (the file is read twice) "
+    "are counted as an event because no checked quantity depends on them",
     "runs of the full program that fail before io.dump_apbs is entered "
     "belong to other properties and are only counted",
 ]
 BOUND = {
-    "quick": "n=1 x 27 parameter triples; n=2 (53 origin pairs) x 7 "
-    "one-at-a-time parameter settings; n=3 (378 multisets, one file order "
-    "chosen by the seed) x defaults; record patterns; all <=2-line header "
-    "programs on 3 bases x scales {1,100} x 4 offsets x 3 layouts; bulk up "
-    "to 8000 atoms; all bundled PQR files; dump_apbs on 10 geometries x 72 "
-    "placements; 96 end-to-end runs",
-    "thorough": "quick plus n=2 all 729 ordered pairs x 27 parameter "
-    "triples, n=3 in all 3 file orders x 7 settings, header programs on all "
-    "6 scales, bulk up to 64000 atoms, 288 end-to-end runs and one bundled "
-    "protein (1AFS) end to end",
+    "quick": "n=1 x 7 one-at-a-time parameter settings; n=2 (53 origin "
+    "pairs) x 7 settings; n=3 (378 multisets, one of the 27 (file order, "
+    "first radius, second radius) blocks chosen by the seed) x defaults; ATOM/HETATM "
+    "patterns for n<=2; all <=2-line header programs on 3 bases x scales "
+    "{1,100} x 4 offsets x 3 layouts (+ file / CRLF door at scale 1); bulk "
+    "lattices up to 8000 atoms; all 49 bundled PQR files; dump_apbs on 10 "
+    "geometries x 3 header sets x 72 placements; 48 end-to-end runs",
+    "thorough": "n=1 x all 27 parameter triples; n=2 all 729 ordered pairs "
+    "x 7 settings and the 53 origin pairs x the other 20 triples; n=3 in "
+    "all 3 file orders x all radii x defaults, first order also x "
+    "{cfac=1, fadd=0, space=1}; header programs on all 6 scales; bulk up to "
+    "64000 atoms; 288 end-to-end runs (3 force fields, shifts up to +5000) "
+    "and the bundled protein 1AFS end to end in both layouts",
 }
 
 TOL = 1e-6
@@ -533,7 +544,9 @@ def line_class(text):
     w = text.split()
     if not w:
         return "blank-line"
-    group = w[0] if w[0] in ("REMARK", "TER", "END") else "other-record"
+    if w[0] in ("TER", "END"):
+        return f"{w[0]}-record"
+    group = "REMARK" if w[0] == "REMARK" else "other-record"
     numeric = 0
     for tok in w[1:]:
         try:
@@ -558,13 +571,10 @@ def header_programs(n_atoms):
         for g2 in range(g1, n_atoms + 1):
             for k1 in KINDS:
                 for k2 in KINDS:
-                    if not (ok(g1, k1) and ok(g2, k2)):
-                        continue
-                    if g1 == g2 and k1 == "END":
-                        # something after END in the same gap is still a
-                        # trailing non-atom line: allowed
-                        pass
-                    doubles.append(((g1, k1), (g2, k2)))
+                    # (in the last gap a line may follow END: it is still a
+                    # trailing non-atom line)
+                    if ok(g1, k1) and ok(g2, k2):
+                        doubles.append(((g1, k1), (g2, k2)))
     return singles, doubles
 
 
@@ -626,6 +636,10 @@ def state_diff(base, other):
 
 
 def _hdr_sig(cls, kinds):
+    """cls: 'raises:<Exc>' or 'changes:<what>' (what is kept in the detail:
+    one class 'changes-result' whatever part of the result moved)."""
+    if cls.startswith("changes:"):
+        cls = "changes-result"
     names = "+".join(line_class(HEADER_KINDS.get(k, k)) for k in kinds)
     if len(kinds) > 1:
         names = "only-together:" + names
@@ -666,7 +680,7 @@ def run_headers(case, col):
             return {"inserted": [HEADER_KINDS[i[1]] for i in prog],
                     "kinds": [i[1] for i in prog],
                     "gaps": [i[0] for i in prog], "atom_lines": lines,
-                    "difference": diff[1], "via": via}
+                    "effect": diff[0], "difference": diff[1], "via": via}
 
         def replay(prog=prog):
             return one_case(atoms, layout, "default", prog, via)
@@ -704,6 +718,8 @@ def run_geom(case, col):
                                                  (RADII.index(r[0]) + 1) % 3)]
     if case.get("r0") is not None:  # chunk: radius of the first site fixed
         radii_tuples = [r for r in radii_tuples if r[0] == RADII[case["r0"]]]
+    if case.get("r1") is not None:  # ... and of the second
+        radii_tuples = [r for r in radii_tuples if r[1] == RADII[case["r1"]]]
     for sites in atom_tuples(n, case.get("mode", "star"),
                              case.get("order", 0)):
         for radii in radii_tuples:
@@ -848,8 +864,9 @@ def run_bundled(case, col):
     if not blamed:
         blamed[(diff[0], "unattributed")] = {}
     for (cls, lclass), recs in sorted(blamed.items()):
-        col.fail(f"C17/header-line/{cls}/{lclass}",
-                 {"file": case["file"], "records": recs,
+        sig_cls = "changes-result" if cls.startswith("changes:") else cls
+        col.fail(f"C17/header-line/{sig_cls}/{lclass}",
+                 {"file": case["file"], "records": recs, "effect": cls,
                   "whole_file_difference": [diff[0], diff[1]]}, dict(case))
     col.events[f"bundled-{diff[0]}"] += 1
 
@@ -902,9 +919,15 @@ def check_apbs_input(in_text, pqr_name, lo, hi, fresh, tag, lctx, col, case,
             if not _is_grid_count(dime[i]):
                 other.add("dime-not-32k+1>=33")
         if small:
-            col.fail(f"C17/{tag}/box-smaller-than-the-molecule/layout:{lctx}",
-                     {"elec": e, "too_small": sorted(small),
-                      "hull": [lo, hi], **context}, case)
+            sig = f"C17/{tag}/box-smaller-than-the-molecule/layout:{lctx}"
+            if tag == "dump_apbs" and fresh is not None and any(
+                    abs(fresh.minlen[i] - lo[i]) > 1e-4
+                    or abs(fresh.maxlen[i] - hi[i]) > 1e-4 for i in range(3)):
+                # same class as the direct sizing of such a file
+                sig = ("C17/box/spheres-not-enclosed-or-off-centre/"
+                       f"hull-misread/layout:{lctx}")
+            col.fail(sig, {"elec": e, "too_small": sorted(small),
+                           "hull": [lo, hi], "via": tag, **context}, case)
         for c in sorted(other):
             col.fail(f"C17/{tag}/{c}",
                      {"elec": e, "hull": [lo, hi], **context}, case)
@@ -1248,10 +1271,12 @@ def enumerate_cases(tier, seed):
                                   "layout": lay,
                                   "params": P4 if k == 0 else P1})
         else:
-            # one of the nine (file order, first radius) blocks, by the seed
+            # one of the 27 (file order, first radius, second radius)
+            # blocks, chosen by the seed
             cases.append({"kind": "geom", "n": 3, "order": seed % 3,
-                          "r0": (seed // 3) % 3, "scale": s, "offset": o,
-                          "layout": lay, "params": P1})
+                          "r0": (seed // 3) % 3, "r1": (seed // 9 + 1) % 3,
+                          "scale": s, "offset": o, "layout": lay,
+                          "params": P1})
     # --- non-atom lines ---------------------------------------------------
     h_scales = order if thorough else ["1", "100"]
     for base in H_BASES:
